@@ -281,6 +281,23 @@ def run_impl(case):
     flags["transform_nonneg"] = bool(np.all(tu >= 0)) and bool(np.all(np.isfinite(tu)))
     want = [len(xq_list), hh, ww, R] if case["kind"] == "4d" else [len(xq_list), R]
     flags["transform_shape"] = list(tu.shape) == want
+    # a fully-convolutional extractor accepts every image size: transform of images LARGER than the fitted ones must give
+    # the coefficients of THEIR OWN activations, location by location (library observations: g and the reducer)
+    if case["kind"] == "4d":
+        import random as _random
+        r2 = _random.Random(case["seed"])
+        H2, W2 = case["H"] + r2.choice([1, 2, 4]), case["W"] + r2.choice([0, 3, 5])
+        x2 = torch.tensor(np.array(gen_images(r2, 2, case["C"], H2, W2), dtype=np.float32).reshape(2, case["C"], H2, W2))
+        with torch.no_grad():
+            raw2 = g(x2).numpy()
+        red = craft.factorization.reducer
+        ref2 = np.asarray(red.transform(np.transpose(raw2, (0, 2, 3, 1)).reshape(-1, raw2.shape[1]).astype(red.components_.dtype)))
+        ref2 = ref2.reshape(2, raw2.shape[2], raw2.shape[3], R)
+        try:
+            tu2 = np.asarray(craft.transform(x2))
+            flags["other_size_transform"] = tu2.shape == ref2.shape and bool(np.allclose(tu2, ref2, rtol=1e-5, atol=1e-6))
+        except Exception:                     # noqa: BLE001
+            flags["other_size_transform"] = False
     # the extractor on the query inputs and scikit-learn's transform of the whole activation matrix (library observations)
     with torch.no_grad():
         raw = g(xq).numpy()
